@@ -5,6 +5,7 @@ bounds.  Helper lemmas live in `Lemmas/C16.lean` (bookkeeping over ℚ) and `Ana
 -/
 import GemseoVerif.Lemmas.C16
 import GemseoVerif.Lemmas.C16Complex
+import GemseoVerif.Lemmas.C16Hist
 import GemseoVerif.Analysis.C16
 import GemseoVerif.Analysis.C16Complex
 import Mathlib.Data.Rat.Cast.Order
@@ -940,6 +941,184 @@ example :
     cdGrad (polyFun [[⟨1, [2, 1, 0]⟩]]) (some ⟨[some 1, some 0, some 0], [some 1, some (1/16), some 4], false⟩)
         [1, 1/16, 2] (.scalar (1/4)) [0] = [[(1 - (3/4)^2) * (1/16) / (1/4)]] ∧
     (⟨[some 3], [some 3], true⟩ : Space).ubW 0 = some 0 := by
+  decide +kernel
+
+/-! ### Requests served by ONE `DisciplineJacApprox` (histories)
+
+`compute_approx_jac(outputs, inputs, x_indices)`, hence `Discipline.linearize` in an approximation mode and
+`check_jacobian`, at the current data `x` of the discipline: whatever names are requested, in whatever order,
+and whatever the object served before, column `c` of the flat Jacobian is the difference quotient of the *full*
+function of the discipline at the *full* current point along the global component that sits at position `c`
+of the request, restricted to the requested outputs.  The error theorems above (`fd_model_first_order`, …)
+therefore apply to every block of every request. -/
+
+theorem mem_effIndices_lt (n : Nat) (idx : List Nat) (h : ∀ c ∈ idx, c < n) :
+    ∀ c ∈ effIndices n idx, c < n := by
+  intro c hc
+  unfold effIndices at hc
+  split at hc
+  · exact List.mem_range.mp hc
+  · exact h c hc
+
+/-- Forward differences: the columns of a request. -/
+theorem request_columns_fd (D : Disc) (x : Vec) (s : Step) (r : Request)
+    (hnd : (compsOf D.inSizes r.ins).Nodup) (hr : ∀ g ∈ compsOf D.inSizes r.ins, g < x.length)
+    (hx : ∀ c ∈ r.xidx, c < (compsOf D.inSizes r.ins).length) :
+    reqCols .fd false D x s r =
+      (effIndices (compsOf D.inSizes r.ins).length r.xidx).map (fun c =>
+        (compsOf D.outSizes r.outs).map (fun j =>
+          (getR (D.f (bump x ((compsOf D.inSizes r.ins).getD c 0) (s.at c))) j - getR (D.f x) j) / s.at c)) := by
+  unfold reqCols reqColsWith
+  simp only
+  rw [fdGrad_eq, pick_length]
+  apply List.map_congr_left
+  intro c hc
+  have hc' : c < (compsOf D.inSizes r.ins).length := mem_effIndices_lt _ _ hx c hc
+  have hstep : fdStep none (pick (compsOf D.inSizes r.ins) x) s c = s.at c := rfl
+  rw [hstep, reqFun_bump D.f x _ _ c _ hnd hr hc', reqFun_self D.f x _ _ hr, colDiff_pick]
+  simp [List.getD_eq_getElem?_getD, List.getElem?_eq_getElem hc']
+
+/-- Centered differences: the columns of a request. -/
+theorem request_columns_cd (D : Disc) (x : Vec) (s : Step) (r : Request)
+    (hnd : (compsOf D.inSizes r.ins).Nodup) (hr : ∀ g ∈ compsOf D.inSizes r.ins, g < x.length)
+    (hx : ∀ c ∈ r.xidx, c < (compsOf D.inSizes r.ins).length) :
+    reqCols .cd false D x s r =
+      (effIndices (compsOf D.inSizes r.ins).length r.xidx).map (fun c =>
+        (compsOf D.outSizes r.outs).map (fun j =>
+          (getR (D.f (bump x ((compsOf D.inSizes r.ins).getD c 0) (s.at c))) j
+            - getR (D.f (bump x ((compsOf D.inSizes r.ins).getD c 0) (-(s.at c)))) j)
+            / absR (s.at c - -(s.at c)))) := by
+  unfold reqCols reqColsWith
+  simp only
+  rw [cdGrad_eq, pick_length]
+  apply List.map_congr_left
+  intro c hc
+  have hc' : c < (compsOf D.inSizes r.ins).length := mem_effIndices_lt _ _ hx c hc
+  have hp : cdPlus none (pick (compsOf D.inSizes r.ins) x) s c = s.at c := by simp [cdPlus, cdFwdBlocked]
+  have hm : cdMinus none (pick (compsOf D.inSizes r.ins) x) s c = -(s.at c) := rfl
+  rw [hp, hm, norm1_bump _ c _ _ (by rw [pick_length]; exact hc'),
+    reqFun_bump D.f x _ _ c _ hnd hr hc', reqFun_bump D.f x _ _ c _ hnd hr hc', colDiff_pick]
+  simp [List.getD_eq_getElem?_getD, List.getElem?_eq_getElem hc']
+
+/-- Complex step: the columns of a request (the complex point is the current data of the discipline with the
+    imaginary step on the global component only). -/
+theorem request_columns_cs (D : Disc) (x : Vec) (s : Step) (r : Request)
+    (hnd : (compsOf D.inSizes r.ins).Nodup) (hr : ∀ g ∈ compsOf D.inSizes r.ins, g < x.length)
+    (hx : ∀ c ∈ r.xidx, c < (compsOf D.inSizes r.ins).length) :
+    reqCols .cs false D x s r =
+      (effIndices (compsOf D.inSizes r.ins).length r.xidx).map (fun c =>
+        (compsOf D.outSizes r.outs).map (fun j =>
+          ((D.fc ((x.map GRat.ofRat).set ((compsOf D.inSizes r.ins).getD c 0)
+              ⟨getR x ((compsOf D.inSizes r.ins).getD c 0),
+               xnnz x ((compsOf D.inSizes r.ins).getD c 0) * s.at c⟩)).getD j ⟨0, 0⟩).im
+            / (xnnz x ((compsOf D.inSizes r.ins).getD c 0) * s.at c))) := by
+  unfold reqCols reqColsWith
+  simp only
+  rw [csGrad_eq, pick_length]
+  apply List.map_congr_left
+  intro c hc
+  have hc' : c < (compsOf D.inSizes r.ins).length := mem_effIndices_lt _ _ hx c hc
+  have hlen : (pick (compsOf D.inSizes r.ins) x).length = (compsOf D.inSizes r.ins).length := pick_length _ _
+  have hpert := reqFunG_pert D.fc x s _ (compsOf D.outSizes r.outs) c hnd hr hc'
+  rw [hlen] at hpert
+  rw [hpert, imSum_csPert _ _ s c hc']
+  have hg : (compsOf D.inSizes r.ins).getD c 0 = (compsOf D.inSizes r.ins)[c] := by
+    simp [List.getD_eq_getElem?_getD, List.getElem?_eq_getElem hc']
+  simp only [pickG, pickL, List.map_map, hg, csDelta, xnnz, getR_pick _ x c hc']
+  rfl
+
+/-- Parallel evaluation of a request equals its serial evaluation. -/
+theorem request_parallel_eq_serial (sch : Scheme) (D : Disc) (x : Vec) (s : Step)
+    (fn : List Nat × List Nat) (r : Request) :
+    reqColsWith sch true D x s fn r = reqColsWith sch false D x s fn r := by
+  cases sch
+  · exact parallel_eq_serial_fd _ _ _ _ _
+  · exact parallel_eq_serial_cd _ _ _ _ _
+  · exact parallel_eq_serial_cs _ _ _ _
+
+/-- Entry `(r', c')` of the block (`a`-th requested output name, `b`-th requested input name): the value
+    attached to the position of component `c'` of that input in the vector of the request and to the global
+    output component (sum of the sizes of the outputs declared before) `+ r'`. -/
+theorem reqBlock_entry (D : Disc) (r : Request) (q : Nat → Nat → ℚ) (hx0 : r.xidx = [])
+    (a b r' c' : Nat) (ha : a < r.outs.length) (hb : b < r.ins.length)
+    (hr' : r' < D.outSizes.getD r.outs[a] 0) (hc' : c' < D.inSizes.getD r.ins[b] 0) :
+    getR ((reqBlock D r ((List.range (compsOf D.inSizes r.ins).length).map (fun c =>
+        (compsOf D.outSizes r.outs).map (fun j => q c j))) a b).getD r' []) c' =
+      q (((r.ins.map (fun n => D.inSizes.getD n 0)).take b).sum + c')
+        ((D.outSizes.take r.outs[a]).sum + r') := by
+  have hJ := compsOf_get D.outSizes r.outs a r' ha hr'
+  have hC := compsOf_get D.inSizes r.ins b c' hb hc'
+  obtain ⟨hJlt, _⟩ := List.getElem?_eq_some_iff.mp hJ
+  obtain ⟨hClt, _⟩ := List.getElem?_eq_some_iff.mp hC
+  unfold reqBlock
+  simp only [hx0]
+  rw [block_get _ _ _ _ _ _ _ (by rw [getD_map_of_lt _ _ _ _ ha]; exact hr')
+    (by rw [getD_map_of_lt _ _ _ _ hb]; exact hc')]
+  have hplace : ∀ m n (cols : List Vec), placeCols m n [] cols = cols := fun _ _ _ => rfl
+  rw [hplace, rowsOf_getD _ _ _ hJlt, getR_map_getR, getD_range_map _ _ _ _ hClt,
+    getR_map_of_getElem? _ _ _ _ hJ]
+
+/-- Forward differences, all components: every entry of every block of a request is the forward quotient of
+    the right output component of the discipline along the right input component, at the current point. -/
+theorem request_block_entry_fd (D : Disc) (x : Vec) (s : Step) (r : Request)
+    (hnd : (compsOf D.inSizes r.ins).Nodup) (hr : ∀ g ∈ compsOf D.inSizes r.ins, g < x.length)
+    (hx0 : r.xidx = []) (a b r' c' : Nat) (ha : a < r.outs.length) (hb : b < r.ins.length)
+    (hr' : r' < D.outSizes.getD r.outs[a] 0) (hc' : c' < D.inSizes.getD r.ins[b] 0) :
+    let pos := ((r.ins.map (fun n => D.inSizes.getD n 0)).take b).sum + c'
+    let g := (D.inSizes.take r.ins[b]).sum + c'
+    let j := (D.outSizes.take r.outs[a]).sum + r'
+    getR ((reqBlock D r (reqCols .fd false D x s r) a b).getD r' []) c' =
+      (getR (D.f (bump x g (s.at pos))) j - getR (D.f x) j) / s.at pos := by
+  intro pos g j
+  have hC := compsOf_get D.inSizes r.ins b c' hb hc'
+  rw [request_columns_fd D x s r hnd hr (by simp [hx0]), hx0, effIndices_all,
+    reqBlock_entry D r _ hx0 a b r' c' ha hb hr' hc']
+  simp only [List.getD_eq_getElem?_getD, hC, Option.getD_some]
+  rfl
+
+theorem op_request_fst (sch : Scheme) (par : Bool) (D : Disc) (st : JacApprox) (x : Vec) (r : Request) :
+    (st.op sch par D (.request x r)).1 = st.create r := by
+  unfold JacApprox.op
+  simp only [JacApprox.create]
+  split <;> rfl
+
+/-- The step read by the next request is the last one assigned. -/
+theorem run_step (sch : Scheme) (par : Bool) (D : Disc) (st : JacApprox) (ops : List JOp) :
+    (JacApprox.run sch par D st ops).1.step = stepAfter st.step ops := by
+  induction ops generalizing st with
+  | nil => rfl
+  | cons o rest ih =>
+    cases o with
+    | setStep t => simp only [JacApprox.run, JacApprox.op, stepAfter]; exact ih _
+    | request x r =>
+      simp only [JacApprox.run, stepAfter]
+      rw [ih, op_request_fst]
+      rfl
+
+/-- History independence: after any history of step assignments and requests (any names, orders, points),
+    a request is served exactly as by a fresh object holding the step in force — the function differentiated
+    is built from the names of *this* request. -/
+theorem request_history_independent (sch : Scheme) (par : Bool) (D : Disc) (st : JacApprox)
+    (ops : List JOp) (x : Vec) (r : Request) :
+    ((JacApprox.run sch par D st ops).1.op sch par D (.request x r)).2 =
+      if reqValid D (stepAfter st.step ops) r
+      then some (reqBlocks sch par D x (stepAfter st.step ops) r) else none := by
+  simp only [JacApprox.op, JacApprox.create, run_step]
+  split <;> simp_all [reqBlocks, reqCols]
+
+/-- Non-vacuity: a discipline with inputs of sizes (2, 1) and outputs of sizes (1, 1), `y0 = x0[0]²·x1`,
+    `y1 = 3·x0[0]·x0[1]·x1` at `x = (1, 2, 3)`.  The object first serves `y1` w.r.t. `(x1, x0)`, its step is
+    changed, then it serves `y0` w.r.t. the same inputs: the second answer is `y0`'s (not `y1`'s), in the order
+    of the request, and equals the answer of a fresh object. -/
+example :
+    let D : Disc := ⟨[2, 1], [1, 1], polyFun [[⟨1, [2, 0, 1]⟩], [⟨3, [1, 1, 1]⟩]],
+      polyFunG [[⟨1, [2, 0, 1]⟩], [⟨3, [1, 1, 1]⟩]]⟩
+    let ops := [JOp.request [1, 2, 3] ⟨[1], [1, 0], []⟩, JOp.setStep (.scalar (1/4))]
+    ((JacApprox.run .fd false D ⟨.scalar (1/2), none⟩ ops).1.op .fd false D
+        (.request [1, 2, 3] ⟨[0], [1, 0], []⟩)).2
+      = some [[[1]], [[6 + 3/4, 0]]] ∧
+    (JacApprox.run .fd false D ⟨.scalar (1/2), none⟩ ops).2 = [some [[[6]], [[18, 9]]], none] ∧
+    (compsOf D.inSizes [1, 0]).Nodup ∧ (∀ g ∈ compsOf D.inSizes [1, 0], g < 3) := by
   decide +kernel
 
 end GV.C16
